@@ -354,6 +354,25 @@ pub fn generate(suite: &str, seed: u64, count: u64, tier: &str) -> Vec<String> {
     let mut out = vec![];
     match suite {
         "wsend" => {
+            // retry-budget boundary: k time-outs and 6 - k (and 7 - k) stale ACKs in every order position of the last one, then silence
+            for ws in [1u64, 3] {
+                for k in 0..=6u64 {
+                    for extra in [0u64, 1] {
+                        for stale_last in [true, false] {
+                            let stale = 6 + extra - k.min(6);
+                            let mut evs: Vec<String> = vec![];
+                            if stale_last {
+                                for _ in 0..k { evs.push(format!("e{}", SEC)); }
+                                for _ in 0..stale { evs.push(ev_d(0, &ack(0))); }
+                            } else {
+                                for _ in 0..stale { evs.push(ev_d(0, &ack(0))); }
+                                for _ in 0..k { evs.push(format!("e{}", SEC)); }
+                            }
+                            out.push(format!("send 8 {ws} {SEC} 1 0 P40:3 - {}", join(&evs)));
+                        }
+                    }
+                }
+            }
             for _ in 0..count {
                 out.push(gen_send(&mut rng));
             }
